@@ -50,6 +50,23 @@ pub fn main() {
             }
         }
         "selftest" => crate::selftest::main(&args[2..]),
+        "analyze" => {
+            // vcheck analyze <hex> [permissive]
+            let code = hex::decode(args[2].trim_start_matches("0x")).expect("hex");
+            let cfg = crate::subj::VmCfg {
+                permissive: args.get(3).map(|s| s == "permissive").unwrap_or(false),
+                ..Default::default()
+            };
+            println!("{}", crate::asm::disasm(&code));
+            match crate::subj::analyze(&code, &cfg, false, crate::subj::lazy()) {
+                Ok(l) => {
+                    for s in l.slots() {
+                        println!("{}", serde_json::to_string(s).unwrap());
+                    }
+                }
+                Err(e) => println!("ERR {:?}", crate::subj::error_kinds(&e)),
+            }
+        }
         "run" => {
             if args.len() < 4 {
                 usage();
